@@ -137,6 +137,22 @@ def check_one(rep, h):
             rep.ok("C03.f", qi)
         memo = {}
         p = ir.to_poly(t, 'real', atomize=atomize, memo=memo)
+        exp = ir.Poly({})
+        one = ir.Poly.const(Fraction(1))
+        for c, vec in zip(sinks, offs):
+            w = one
+            for k, b in enumerate(vec):
+                f = ir.Poly.atom(('frac', k))
+                w = w * (f if b else one - f)
+            exp = exp + w * ir.Poly.atom(('ld', ('ret', c.n), tsz * q, tsz, T, 0))
+        if p != exp:
+            names = {('frac', k): "f%d" % k for k in range(N)}
+            d = p - exp
+            rep.fail("C03.e", qi, FILE, "interpolation polynomial differs from the N-linear interpolant; difference has %d monomials, e.g. %s" % (
+                len(d.t), ir.Poly(dict(list(d.t.items())[:3])).show(names)))
+            continue
+        else:
+            rep.ok("C03.e", qi, sample={"instance": qi, "monomials": len(p.t)} if q == 0 and N == 2 else None)
         # C03.g: every intermediate value that involves stored values is a sub-convex combination of them
         # for all fractional parts in [0,1]^N (coefficients are multilinear, so the cube's vertices decide)
         worst = None
@@ -175,21 +191,6 @@ def check_one(rep, h):
                 "a negative weight" if neg else "weights summing to %s" % tot, list(v), ir.show(x)[:140]))
         else:
             rep.ok("C03.g", qi)
-        exp = ir.Poly({})
-        one = ir.Poly.const(Fraction(1))
-        for c, vec in zip(sinks, offs):
-            w = one
-            for k, b in enumerate(vec):
-                f = ir.Poly.atom(('frac', k))
-                w = w * (f if b else one - f)
-            exp = exp + w * ir.Poly.atom(('ld', ('ret', c.n), tsz * q, tsz, T, 0))
-        if p != exp:
-            names = {('frac', k): "f%d" % k for k in range(N)}
-            d = p - exp
-            rep.fail("C03.e", qi, FILE, "interpolation polynomial differs from the N-linear interpolant; difference has %d monomials, e.g. %s" % (
-                len(d.t), ir.Poly(dict(list(d.t.items())[:3])).show(names)))
-        else:
-            rep.ok("C03.e", qi, sample={"instance": qi, "monomials": len(p.t)} if q == 0 and N == 2 else None)
 
 
 def declare(rep):
